@@ -761,6 +761,11 @@ class Interp:
             return concat_list(self.iterate(a0, e), axis, e)
         if short in ("conjugate", "conj"):
             a = self.need_arr(a0, e)
+            if kwargs.get("out") is a:
+                a.conj = not a.conj  # in place: every holder of this array sees the conjugated values
+                return a
+            if kwargs.get("out") is not None:
+                self.unknown("np.conjugate(out=another array)", e)
             return a.with_(conj=not a.conj)
         if short == "zeros" and kwargs.get("dtype") is not None and getattr(kwargs["dtype"], "what", None) == "object":
             shape = a0 if isinstance(a0, tuple) else (a0,)
